@@ -231,6 +231,11 @@ fn scenario_restart(rng: &mut Rng, id: String, rep: &mut Report, props: &[&str])
             w.restart(clear);
             let k2 = w.new_injector();
             w.push_via(k2, 40, false);
+            if rng.coin() {
+                // the matcher becomes the sole owner of that stream before the next restart
+                w.drop_injector(k2);
+                rep.count("directed.restart.twice-without-tick.sole-owner");
+            }
             w.restart(rng.coin());
             rep.count("directed.restart.twice-without-tick");
         }
@@ -250,6 +255,7 @@ fn scenario_restart(rng: &mut Rng, id: String, rep: &mut Report, props: &[&str])
     // new stream
     let k2 = w.new_injector();
     w.check_active_injectors("injector after restart");
+    let k2 = k2.min(w.handles.len() - 1);
     let timeout = *rng.pick(&[0u64, 0, 20, 200]);
     // ticks before anything was injected into the new stream
     let st = w.tick(timeout);
@@ -260,7 +266,7 @@ fn scenario_restart(rng: &mut Rng, id: String, rep: &mut Report, props: &[&str])
         let st = w.tick(timeout);
         rep.count(&format!("tick.changed={}.running={}", st.changed, st.running));
         // the old handle keeps accepting items without any effect
-        if !w.handles.is_empty() {
+        if k < w.handles.len() {
             w.push_via(k, 3, false);
         }
     }
@@ -577,6 +583,95 @@ fn c13_schedule(order: usize, empty_pattern: bool, rng: &mut Rng, id: String, re
     w.shutdown();
 }
 
+/// a run whose result has exactly as many matches as the previous one must still notify
+fn c13_same_count(rng: &mut Rng, id: String, rep: &mut Report) {
+    reset_ctl(true);
+    let threads = *rng.pick(&[1usize, 2]);
+    let mut w = World::new(id.clone(), rng, threads, 1, None);
+    let empty = rng.coin();
+    if !empty {
+        w.edit(0, "o");
+    }
+    let k = w.new_injector();
+    let n = rng.range(3, 40);
+    // ids chosen so that the same texts (hence the same number of matches) can be injected again
+    let first = w.alloc_ids(n as u32);
+    inject(&w.handles[k].inj, &w.reg, 0, first, n, true, &w.invoked, &w.completed);
+    let mut g = 0;
+    while w.n().tick(50).running && g < 100 {
+        g += 1;
+    }
+    let matched_before = w.nucleo.as_ref().unwrap().snapshot().matched_item_count();
+    let variant = rng.below(3);
+    let begin;
+    let st;
+    match variant {
+        0 | 1 => {
+            // new stream with the same number of (matching) items, snapshot retained or cleared
+            w.restart(variant == 1);
+            let k2 = w.new_injector();
+            let stream = w.cur;
+            // same texts: item_text only depends on id modulo the corpus length
+            let period = (35 * 4 * 12) as u32; // multiple of every period used by item_text
+            let base = (w.alloc_ids(period * 2) / period + 1) * period + first % period;
+            inject(&w.handles[k2].inj, &w.reg, stream, base, n, true, &w.invoked, &w.completed);
+            wait_no_run_pending(2000);
+            // hold the new run at its entry so that the tick cannot wait it out
+            pause_at(Point::RunEntry);
+            begin = record_event(EvKind::TickBegin);
+            st = w.n().tick(0);
+            if !wait_paused(0, 1500) {
+                cancel_pause(0);
+            }
+            release(0);
+        }
+        _ => {
+            // an item that is in flight across two runs, then published
+            let mut hw = HeldWriter::start(&mut w, k);
+            w.n().tick(30);
+            w.n().tick(30);
+            hw.release();
+            wait_no_run_pending(2000);
+            pause_at(Point::RunEntry);
+            begin = record_event(EvKind::TickBegin);
+            st = w.n().tick(0);
+            if !wait_paused(0, 300) {
+                cancel_pause(0);
+            }
+            release(0);
+        }
+    }
+    rep.count(&format!("c13.same-count.variant{variant}.running={}", st.running));
+    // wait until every spawned run has passed its notification decision
+    let ok = wait_no_run_pending(3000);
+    std::thread::sleep(Duration::from_millis(2));
+    if !ok {
+        rep.count("c13.runs-still-pending(inconclusive)");
+    } else {
+        rep.count("c13.schedules-judged");
+        let events = with_ctl(|c| c.events.clone());
+        let notified_after = events.iter().any(|(s, k)| *k == EvKind::Notify && *s > begin);
+        if st.running && !notified_after {
+            let tail: Vec<J> = events.iter().rev().take(30).rev().map(|(s, k)| J::Str(format!("{s}: {k:?}"))).collect();
+            rep.violation(
+                "C13",
+                "lost-wake-up",
+                format!("same-count variant {variant} empty_pattern={empty}"),
+                jobj! {"problem" => format!("tick returned running=true but no notify followed although the background run finished (matches before: {matched_before})"),
+                       "case_id" => id, "events_tail" => J::Arr(tail)},
+            );
+        }
+    }
+    while !w.handles.is_empty() {
+        w.drop_injector(0);
+    }
+    let mut g = 0;
+    while w.n().tick(50).running && g < 100 {
+        g += 1;
+    }
+    w.shutdown();
+}
+
 /// every push / extend calls notify after the new items are visible
 fn c13_injector_clause(rng: &mut Rng, id: String, rep: &mut Report) {
     thread_local! {
@@ -796,7 +891,8 @@ pub fn run_c13(opts: &Opts, rep: &mut Report) {
                 let empty = (idx % 20) >= 9;
                 c13_schedule(order, empty, &mut rng, id, rep);
             }
-            18 => c13_injector_clause(&mut rng, id, rep),
+            18 if (idx / 20) % 2 == 0 => c13_injector_clause(&mut rng, id, rep),
+            18 => c13_same_count(&mut rng, id, rep),
             _ => {
                 set_delays(true);
                 c13_event_loop(&mut rng, id, rep);
